@@ -94,28 +94,49 @@ fn line_changes(patched_file: &PatchedFile) -> Vec<LineChange> {
     line_changes
 }
 
-/// Returns sorted character ranges in `new` that represent changes from `old`.
+/// Returns sorted byte ranges in `new` that represent changes from `old`.
+///
+/// The diff itself is computed over characters; the resulting character indices are converted to
+/// byte offsets in `new`, because they are compared with the byte columns of tag and content
+/// positions (lines with multi-byte characters before the changed text would otherwise be off).
 fn line_diff(old: &str, new: &str) -> Vec<Range<usize>> {
     let mut result = Vec::new();
     let diff = similar::TextDiff::from_chars(old, new);
+    // Byte offset of every character of `new`, plus the end of the string.
+    let byte_offsets: Vec<usize> = new
+        .char_indices()
+        .map(|(idx, _)| idx)
+        .chain(std::iter::once(new.len()))
+        .collect();
+    let new_chars = byte_offsets.len() - 1;
+    let to_bytes = |char_range: Range<usize>| {
+        byte_offsets[char_range.start.min(new_chars)]..byte_offsets[char_range.end.min(new_chars)]
+    };
     let mut prev_op = None;
     for op in diff.ops() {
         match op {
             DiffOp::Delete { new_index, .. } => {
                 if prev_op.is_none_or(|c: &DiffOp| !matches!(c, DiffOp::Delete { .. })) {
-                    let idx = new.len().saturating_sub(1).min(*new_index);
-                    push_or_merge_range(&mut result, idx..idx + 1);
+                    let idx = new_chars.saturating_sub(1).min(*new_index);
+                    let range = to_bytes(idx..idx + 1);
+                    // An emptied line still counts as changed at its (only) position.
+                    let range = if range.is_empty() {
+                        range.start..range.start + 1
+                    } else {
+                        range
+                    };
+                    push_or_merge_range(&mut result, range);
                 }
             }
             DiffOp::Insert {
                 new_index, new_len, ..
             } => {
-                push_or_merge_range(&mut result, *new_index..(new_index + new_len));
+                push_or_merge_range(&mut result, to_bytes(*new_index..(new_index + new_len)));
             }
             DiffOp::Replace {
                 new_index, new_len, ..
             } => {
-                push_or_merge_range(&mut result, *new_index..(new_index + new_len));
+                push_or_merge_range(&mut result, to_bytes(*new_index..(new_index + new_len)));
             }
             DiffOp::Equal { .. } => {}
         }
